@@ -384,7 +384,22 @@ class MergeEngine:
     @staticmethod
     def get_remove_cset(engine, csets):
         """Generate the cset of what files shall be removed from the livefs."""
-        return csets["old_cset"].difference(csets["install"])
+        install = csets["install"]
+        remove = csets["old_cset"].difference(install)
+        # a directory symlink on the livefs (/usr/lib -> lib64) gives one file
+        # two names; an old entry that the new pkg installs under its other
+        # name must survive the unmerge.
+        resolve = livefs._realpath_dir()
+        kept = set()
+        for x in install:
+            # the entry itself (last component kept: a symlink entry is the link)
+            kept.add(resolve(x.location))
+            if x.is_dir:
+                # ... and the directory it denotes when it is merged through a link
+                kept.add(x.realpath().location)
+        return remove.difference(
+            [x.location for x in remove if resolve(x.location) in kept]
+        )
 
     @staticmethod
     def get_replace_cset(engine, csets):
